@@ -459,6 +459,192 @@ pub fn values(eng: &mut Eng) {
     }
 }
 
+// ---------------------------------------------------------------- long unobserved bursts
+/// Long runs of operations *without a read in between*. The BFS and the value engine read every
+/// terminal after every operation; anything that remembers a reading (a cache, a revision counter,
+/// a "dirty" flag) is therefore never stale there. Here: a set-up, one read of everything, then a
+/// periodic operation word repeated to N operations with no read, then one read of everything,
+/// judged against a plain link + slot model. N sits on both sides of the integer-width boundaries
+/// 2^8, 2^9 (thorough: 2^16), where a narrow counter wraps.
+const BN: usize = 3;
+#[derive(Clone)]
+struct BModel {
+    link: [Option<usize>; BN],
+    st: [Option<(i64, f32)>; BN],
+    cm: [Option<(i64, f32)>; BN],
+    k: i64,
+}
+fn burst_ops() -> Vec<(u8, usize, usize)> {
+    // (kind, i, j): 0 write_state(i), 1 write_command(i), 2 connect(i,j), 3 disconnect(i)
+    let mut v = Vec::new();
+    for i in 0..BN {
+        v.push((0, i, 0));
+    }
+    for i in 0..BN {
+        v.push((1, i, 0));
+    }
+    for i in 0..BN {
+        for j in 0..BN {
+            if i != j {
+                v.push((2, i, j));
+            }
+        }
+    }
+    for i in 0..BN {
+        v.push((3, i, 0));
+    }
+    v
+}
+fn burst_op_name(o: (u8, usize, usize)) -> String {
+    match o.0 {
+        0 => format!("write_state({})", o.1),
+        1 => format!("write_command({})", o.1),
+        2 => format!("connect({},{})", o.1, o.2),
+        _ => format!("disconnect({})", o.1),
+    }
+}
+fn burst_apply<'a>(ts: &'a [Term<'a>], m: &mut BModel, o: (u8, usize, usize)) {
+    m.k += 1;
+    let t = 10 + m.k;
+    let v = (m.k % 1000) as f32 + 1.0;
+    match o.0 {
+        0 => {
+            ts[o.1].borrow_mut().set(Datum::new(Time(t), State::new_raw(v, -v, 0.5 * v))).unwrap();
+            m.st[o.1] = Some((t, v));
+        }
+        1 => {
+            ts[o.1].borrow_mut().set(Datum::new(Time(t), Command::Position(v))).unwrap();
+            m.cm[o.1] = Some((t, v));
+        }
+        2 => {
+            connect(&ts[o.1], &ts[o.2]);
+            for x in [o.1, o.2] {
+                if let Some(p) = m.link[x] {
+                    m.link[p] = None;
+                    m.link[x] = None;
+                }
+            }
+            m.link[o.1] = Some(o.2);
+            m.link[o.2] = Some(o.1);
+        }
+        _ => {
+            ts[o.1].borrow_mut().disconnect();
+            if let Some(p) = m.link[o.1] {
+                m.link[p] = None;
+                m.link[o.1] = None;
+            }
+        }
+    }
+}
+/// read everything and compare with the model; Err(description) on the first disagreement
+fn burst_read<'a>(ts: &'a [Term<'a>], m: &BModel) -> Result<(), String> {
+    for i in 0..BN {
+        let p = m.link[i];
+        let own_s = m.st[i];
+        let par_s = p.and_then(|p| m.st[p]);
+        let exp_s: Option<(i64, f32)> = match (own_s, par_s) {
+            (None, None) => None,
+            (Some(a), None) | (None, Some(a)) => Some(a),
+            (Some(a), Some(b)) => Some((a.0.max(b.0), (a.1 + b.1) / 2.0)),
+        };
+        let own_c = m.cm[i];
+        let par_c = p.and_then(|p| m.cm[p]);
+        let exp_c: Option<(i64, f32)> = match (own_c, par_c) {
+            (None, None) => None,
+            (Some(a), None) | (None, Some(a)) => Some(a),
+            (Some(a), Some(b)) => Some(if a.0 > b.0 { a } else { b }),
+        };
+        let s = <Terminal<E> as Getter<State, E>>::get(&ts[i].borrow());
+        let c = <Terminal<E> as Getter<Command, E>>::get(&ts[i].borrow());
+        let d = <Terminal<E> as Getter<TerminalData, E>>::get(&ts[i].borrow());
+        let got_s = match &s {
+            Ok(None) => None,
+            Ok(Some(d)) if d.value.velocity == -d.value.position && d.value.acceleration == 0.5 * d.value.position => Some((d.time.0, d.value.position)),
+            other => return Err(format!("terminal {} state read {:?}", i, other)),
+        };
+        if got_s != exp_s {
+            return Err(format!("terminal {} (partner {:?}) state read gives (time, position) {:?} but own slot {:?} and partner slot {:?} make {:?}", i, p, got_s, own_s, par_s, exp_s));
+        }
+        let got_c = match &c {
+            Ok(None) => None,
+            Ok(Some(d)) => match d.value {
+                Command::Position(v) => Some((d.time.0, v)),
+                _ => return Err(format!("terminal {} command read {:?}", i, c)),
+            },
+            other => return Err(format!("terminal {} command read {:?}", i, other)),
+        };
+        if got_c != exp_c {
+            return Err(format!("terminal {} (partner {:?}) command read gives {:?} but own slot {:?} and partner slot {:?} make {:?}", i, p, got_c, own_c, par_c, exp_c));
+        }
+        let exp_d = match (exp_s, exp_c) {
+            (None, None) => None,
+            (Some(s), c) => Some((s.0, Some(s.1), c.map(|c| c.1))),
+            (None, Some(c)) => Some((c.0, None, Some(c.1))),
+        };
+        let got_d = match &d {
+            Ok(None) => None,
+            Ok(Some(dd)) => Some((dd.time.0, dd.value.state.map(|s| s.position), dd.value.command.map(f32::from))),
+            other => return Err(format!("terminal {} combined read {:?}", i, other)),
+        };
+        if got_d != exp_d {
+            return Err(format!("terminal {} (partner {:?}) combined read gives (time, state position, command) {:?}, expected {:?}", i, p, got_d, exp_d));
+        }
+    }
+    Ok(())
+}
+fn bursts(eng: &mut Eng, thorough: bool) {
+    let ops = burst_ops();
+    let words = primitive_words(ops.len(), 2);
+    let lens: Vec<usize> = if thorough { vec![255, 256, 257, 511, 512, 513, 65535, 65536, 65537] } else { vec![255, 256, 257, 511, 512, 513] };
+    // set-ups (operation indices into `ops`): nothing; a link; a link with data on both ends; two relinks with data
+    let setups: Vec<Vec<usize>> = vec![vec![], vec![6], vec![6, 0, 1, 3], vec![6, 9, 0, 1, 2, 4, 5]];
+    let mut cases: Vec<(usize, usize, usize)> = Vec::new();
+    for s in 0..setups.len() {
+        for w in 0..words.len() {
+            for l in 0..lens.len() {
+                cases.push((s, w, l));
+            }
+        }
+    }
+    let (ops, words, lens, setups) = (&ops, &words, &lens, &setups);
+    par_cases(eng, &cases, Budget::secs(if thorough { 1200 } else { 60 }), move |&(si, wi, li), e| {
+        let n = lens[li];
+        let w = &words[wi];
+        e.executions += 1;
+        e.states += 1;
+        e.transitions += (n + setups[si].len()) as u64;
+        e.checks += 2;
+        e.max_depth = e.max_depth.max((n + setups[si].len()) as u64);
+        e.nontrivial += 1;
+        let r = guard(|| -> Result<(), String> {
+            let ts: Vec<Term> = (0..BN).map(|_| Terminal::new()).collect();
+            let mut m = BModel { link: [None; BN], st: [None; BN], cm: [None; BN], k: 0 };
+            for &o in &setups[si] {
+                burst_apply(&ts, &mut m, ops[o]);
+            }
+            burst_read(&ts, &m).map_err(|x| format!("before the burst: {}", x))?;
+            for k in 0..n {
+                burst_apply(&ts, &mut m, ops[w[k % w.len()]]);
+            }
+            burst_read(&ts, &m).map_err(|x| format!("after the burst: {}", x))
+        });
+        let desc = || {
+            format!(
+                "set-up [{}], read all, then [{}] repeated to {} operations without a read, read all",
+                setups[si].iter().map(|&o| burst_op_name(ops[o])).collect::<Vec<_>>().join(","),
+                w.iter().map(|&o| burst_op_name(ops[o])).collect::<Vec<_>>().join(","),
+                n
+            )
+        };
+        match r {
+            Ok(Ok(())) => e.outcome(h64(&(si, wi, li))),
+            Ok(Err(m)) => e.violation("terminals:burst:stale-or-wrong-read", n, || format!("{}: {}", desc(), m)),
+            Err(m) => e.violation("terminals:burst:panic", n, || format!("{}: panicked: {}", desc(), m)),
+        }
+    });
+    eng.sample(|| "set-up [connect(0,1)], read all, then [write_state(1)] repeated to 256 operations without a read, read all".to_string());
+}
+
 pub fn run(ctx: &Ctx) -> Vec<Eng> {
     let max_n = if ctx.thorough { 8 } else { 6 };
     let mut e1 = Eng::new(
@@ -475,5 +661,11 @@ pub fn run(ctx: &Ctx) -> Vec<Eng> {
         "2 x sum over masks of weak orders (1,1,3,13,75 per mask size)",
     );
     values(&mut e2);
-    vec![e1, e2]
+    let mut e3 = Eng::new(
+        "c09-unobserved-bursts",
+        "3 terminals; 4 set-ups x every primitive word of length <= 2 over the 15 operations {write_state(i), write_command(i), connect(i,j), disconnect(i)} repeated to N operations with NO read in between, N on both sides of 2^8 and 2^9 (thorough: and 2^16); all terminals read once before and once after the burst and compared with a link + slot model (state = mean of own and partner slot or whichever exists with the newest time, command = newer, combined read); what remembers a reading across many operations (caches, narrow revision counters) is stale here and nowhere else",
+        &format!("4 set-ups x {} words x {} lengths", primitive_words(15, 2).len(), if ctx.thorough { 9 } else { 6 }),
+    );
+    bursts(&mut e3, ctx.thorough);
+    vec![e1, e2, e3]
 }
